@@ -34,6 +34,7 @@ CONSTANTS
     IgnoreCC,     \* ignore_cache_control
     ForceDefault, \* force_default_max_age
     MaxVer, MaxNow, MaxX,
+    Retry416,     \* retry_on_range_416: a 416 from the origin is retried once without the Range header
     Kinds,        \* request kinds exercised: subset of {"get","range","head","post"}
     Conds         \* client conditional headers exercised: subset of {"none","inm","ims","bad"}
 
@@ -131,6 +132,7 @@ ReplyStatuses(x) ==
     {200, 404, 500}
     \cup (IF ct.reval /\ ct.ver = origin[ct.r].ver THEN {304} ELSE {})
     \cup (IF ct.kind = "range" THEN {206, 416} ELSE {})
+    \* (kind "retry": the second request of a range request whose first answer was 416; it has no Range header)
 
 NewEntry(r) ==
     [present |-> TRUE, ver |-> origin[r].ver, form |-> origin[r].form, val |-> origin[r].val,
@@ -149,7 +151,10 @@ Reply(x, status, st, lr) ==
            fl == flight[r]
            isLeader == ct.leader /\ fl.active /\ fl.x = x
            fol == IF isLeader THEN fl.followers ELSE {}
-           is200 == status = 200 /\ ct.kind \in {"get", "range"}
+           is200 == status = 200 /\ ct.kind \in {"get", "range", "retry"}
+           \* retry_on_range_416: the same client's request goes out again, without Range, and whatever
+           \* comes back is handled as the answer to a plain GET (stored if storable, relayed otherwise)
+           retry416 == Retry416 /\ status = 416 /\ ct.kind = "range"
            stored == is200 /\ st
            renewed == status = 304 /\ store[r].present
            vanished == status = 304 /\ ~store[r].present   \* entry gone since the lookup: fetch again, unconditionally
@@ -166,6 +171,7 @@ Reply(x, status, st, lr) ==
           /\ (~fromStore /\ ~vanished) => nextX + nfol <= MaxX + 1
           /\ contacts' = [y \in 1..MaxX |->
                  IF y = x THEN (IF vanished THEN [OpenX(c, r, ct.kind, ct.leader, FALSE, NoEntry) EXCEPT !.oc = ct.oc]
+                                ELSE IF retry416 THEN [ct EXCEPT !.kind = "retry"]
                                 ELSE IF refetch /\ c # 0 THEN OpenX(c, r, "get", FALSE, FALSE, NoEntry)
                                 ELSE NoContact)
                  ELSE IF ~fromStore /\ ~vanished /\ (\E d \in fol : y = nextX + Rank(fol, d))
@@ -183,7 +189,7 @@ Reply(x, status, st, lr) ==
              ELSE /\ store' = store /\ served' = served
           /\ creq' = [d \in Clients |->
                  IF vanished THEN creq[d]
-                 ELSE IF d = c THEN (IF refetch THEN creq[d] ELSE Idle)
+                 ELSE IF d = c THEN (IF refetch \/ retry416 THEN creq[d] ELSE Idle)
                  ELSE IF d \in fol
                  THEN IF fromStore THEN Idle
                       ELSE [creq[d] EXCEPT !.st = "origin", !.x = nextX + Rank(fol, d)]
@@ -195,7 +201,7 @@ Reply(x, status, st, lr) ==
                  ELSE IF renewed
                  THEN {Resp(d, 200, store[r].ver, IF d = c THEN "REVALIDATED" ELSE "ANY",
                             now - store[r].storedAt, DefaultAge, "store") : d \in ({c} \cup fol) \ {0}}
-                 ELSE IF vanished THEN {}
+                 ELSE IF vanished \/ retry416 THEN {}
                  ELSE IF c = 0 \/ refetch THEN {}
                  ELSE {Resp(c, status, IF status \in {200, 206} THEN origin[r].ver ELSE 0, lbl, 0, 0, "relay")}
     /\ UNCHANGED <<now, origin>>
